@@ -42,6 +42,15 @@ func init() {
 				fmt.Println(strings.Join(pa.HistKeys(), " ; "), " ==> ", pa.Outcome())
 			}
 			fmt.Println(t.Problems)
+		case strings.HasPrefix(spec, "sem:"):
+			f := p.Fn(strings.TrimPrefix(spec, "sem:"))
+			t := p.NewTable(f)
+			t.Event = selectorEvents(p, f)
+			t.Run()
+			for _, sp := range t.Semantic(classifySelectorAtom(p, f)) {
+				fmt.Println(sp.String(), " UNCLASSIFIED:", sp.Unclassified)
+			}
+			fmt.Println(len(t.Paths), "paths", t.Problems)
 		case strings.HasPrefix(spec, "cfg:"):
 			f := p.Fn(strings.TrimPrefix(spec, "cfg:"))
 			g := p.CFG(f)
